@@ -22,6 +22,8 @@ MODEL_FMTS = {
     "noepoch": ("model.pt", "optim.pt"),
     "subdir": ("ep{epoch}/m.pt", "ep{epoch}/o.pt"),
     "plain": ("m{epoch}.pt", "o{epoch}.pt"),
+    # no epoch field, yet distinct whenever the metrics are: other history fields are allowed in formats
+    "metric": ("model_{val_met}.pt", "optim_{val_met}_{train_met}.pt"),
 }
 
 ENTRY_TYPES = {"int": int, "float": float, "str": str}
@@ -81,9 +83,9 @@ def gen_training_scenario(rng, *, max_epochs=12, crash=False):
     sc["best_is_train"] = rng.random() < 0.2
     sc["optimizer"] = rng.choice(["sgd", "adam"])
     sc["salt"] = rng.randrange(1, 1000)
-    fam = rng.choice(["epoch", "epoch", "epoch", "noepoch", "subdir", "plain", "mixed"])
+    fam = rng.choice(["epoch", "epoch", "epoch", "noepoch", "subdir", "plain", "mixed", "metric"])
     if fam == "mixed":
-        a, b = rng.sample(["epoch", "noepoch", "subdir", "plain"], 2)
+        a, b = rng.sample(["epoch", "noepoch", "subdir", "plain", "metric"], 2)
         mf, of = MODEL_FMTS[a][0], MODEL_FMTS[b][1]
     else:
         mf, of = MODEL_FMTS[fam]
